@@ -26,14 +26,14 @@ CLAIMED={
 }
 NOTES={
  "C07":"consensus is a stub (one app instance, final blocks); harness plays the chain observer",
- "C08":"restart delay <= 2 s, phase length >= 8 blocks; main-loop exit = process exit; pgsim keeps only committed state",
+ "C08":"restart delay <= 2 s, phase length >= 8 blocks; main-loop exit = process exit; pgsim keeps only committed state; crash pairs and the retried eon are sampled, single crash points of the base run are complete in the thorough tier",
  "C20":"keys are committed by the generator the way finalizeDKG commits them; pgsim fidelity",
  "C02":"safety only (as stated); keyper sets have increasing activation blocks; simeth/pgsim fidelity",
  "C19":"beacon API stubbed (proposer always registered); sequencer contract enforces minimum gas",
  "C15":"canonical chain fixed during one Sync; contracts emit a key once per chain and nothing before the sync start block; pgsim/simeth fidelity",
  "C16":"fault-free; simeth eth_getLogs semantics; reference matcher ref.TrigDef",
  "C05":"process-wide allocation metering with a generous constant; pgsim fidelity",
- "C06":"ECDSA recovery and SSZ hashing are trusted primitives shared with the reference",
+ "C06":"ECDSA (go-ethereum secp256k1) is a trusted primitive shared with the reference; the signed SSZ roots are computed by the harness's own implementation (sim/ref/sszsig.go)",
  "C01":"message-granularity reading of 'exactly when'; pgsim fidelity (conformance run); trusted-dealer eon keys",
  "C03":"simnet models gossipsub's contract; pgsim fidelity; core flavour only so far",
  "C04":"shlib pairing checks are ground truth; pgsim fidelity",
@@ -44,7 +44,7 @@ NOTES={
  "C10":"no-effect judged on the projection named in the statement; Log/Info free-text excluded",
  "C11":"thresholds within 0..n+1 (the quantifier); monitor is the most permissive reading of the statement",
  "C12":"pinned tendermint ValidatorSet.UpdateWithChangeSet is how updates are applied",
- "C13":"disk model of simfs (sync makes data durable, dir ops durable in order); Tendermint replays blocks after Info().LastBlockHeight",
+ "C13":"disk model of simfs (sync makes data durable, dir ops durable in order, optionally everything older than the current save durable); Tendermint replays blocks after Info().LastBlockHeight",
 }
 m={
  "version":1,
